@@ -138,8 +138,16 @@ func scalar(r *rand.Rand, fd protoreflect.FieldDescriptor, o PopOpts) protorefle
 	return fd.Default()
 }
 
-// Timestamp within 1971..2099.
+// Timestamp within 1971..2099, or (1 in 12) the epoch itself.
 func Timestamp(r *rand.Rand, noNanos bool) *timestamppb.Timestamp {
+	if r.Intn(12) == 0 {
+		// a date that is present but whose content is the zero value (the epoch), or within the epoch's first second
+		ts := &timestamppb.Timestamp{}
+		if !noNanos && r.Intn(2) == 0 {
+			ts.Nanos = int32(1 + r.Intn(999999999))
+		}
+		return ts
+	}
 	ts := &timestamppb.Timestamp{Seconds: 31536000 + r.Int63n(4070908800-31536000)}
 	if !noNanos && r.Intn(2) == 0 {
 		ts.Nanos = int32(r.Intn(1000000000))
